@@ -768,6 +768,53 @@ fn poly_groups<F: PrimeField>(gs: &mut Vec<Group>, fname: &'static str, env: &En
     }
     gs.push(Group { name: format!("evaluate_over_domain/{fname}"), cells });
 
+    // SPARSE polynomial over a domain (a different code path: every domain point is evaluated on its own;
+    // the output must still be in domain order whatever the pool does)
+    let mut cells = Vec::new();
+    for (d, coset, dom) in doms(&[8, 64, 256, 512, 1024]) {
+        let cs = if coset { "coset" } else { "subgroup" };
+        for terms in [1usize, 3, 40] {
+            for by_ref in [false, true] {
+                let op = if by_ref { "sparse_evaluate_over_domain_by_ref" } else { "sparse_evaluate_over_domain" };
+                add(
+                    &mut cells,
+                    format!("{op}/{fname}/{cs}/d={d}/terms={terms}"),
+                    d,
+                    Meta::Plain,
+                    true,
+                    ser_c::<Vec<F>>,
+                    move || {
+                        let tl: Vec<(usize, F)> = pat::<F>("geom", terms).into_iter().enumerate().map(|(i, a)| (7 * i + 1, a)).collect();
+                        let sp = USparse::from_coefficients_vec(tl);
+                        if by_ref {
+                            sp.evaluate_over_domain_by_ref(dom).evals
+                        } else {
+                            sp.evaluate_over_domain(dom).evals
+                        }
+                    },
+                    move |out: &Vec<F>| {
+                        if out.len() != d {
+                            return Err(format!("{} evaluations, domain size {d}", out.len()));
+                        }
+                        let tl: Vec<(usize, F)> = pat::<F>("geom", terms).into_iter().enumerate().map(|(i, a)| (7 * i + 1, a)).collect();
+                        let pts = dom_points(&dom);
+                        for i in rows(d, d <= 256) {
+                            let mut want = F::zero();
+                            for (e, c) in &tl {
+                                want += *c * pts[i].pow([*e as u64]);
+                            }
+                            if out[i] != want {
+                                return Err(format!("evaluation {i}: got {} want {want}", out[i]));
+                            }
+                        }
+                        Ok(())
+                    },
+                );
+            }
+        }
+    }
+    gs.push(Group { name: format!("sparse_evaluate_over_domain/{fname}"), cells });
+
     // Evaluations ops (pointwise, cfg_iter_mut) and mul_polynomials_in_evaluation_domain
     let mut cells = Vec::new();
     let k = cgen::<F>();
@@ -1261,8 +1308,9 @@ fn msm_groups<G: CurveGroup + VariableBaseMSM<MulBase = <G as CurveGroup>::Affin
                 }
             }
         }
-        // unequal lengths: msm reports the shorter length, msm_unchecked chops
-        if n <= 33 {
+        // unequal lengths: msm reports the shorter length, msm_unchecked chops (also at sizes where each thread's
+        // share of the two slices differs: a parallel split must cut both slices to the common prefix first)
+        if n <= 33 || [64, 127, 129, 255, 257, 1023, 1025].contains(&n) {
             let b = bases.clone();
             add(
                 &mut cells,
@@ -1295,6 +1343,40 @@ fn msm_groups<G: CurveGroup + VariableBaseMSM<MulBase = <G as CurveGroup>::Affin
                 },
             );
         }
+    }
+    for (nb, ns) in [(100usize, 90usize), (90, 100), (1000, 900), (900, 1000), (257, 129)] {
+        if reduced && nb.max(ns) > 300 {
+            continue;
+        }
+        let b = bases.clone();
+        let m = nb.min(ns);
+        add(
+            &mut cells,
+            format!("msm/{gname}/msm_unchecked_unequal/bases={nb}/scalars={ns}"),
+            m,
+            Meta::Msm { n: m, windows: msm_windows(m, bits) },
+            true,
+            ser_g::<G>,
+            move || {
+                let sc = spat::<G::ScalarField>("iota_c", ns);
+                let bi: Vec<_> = sc.iter().map(|s| s.into_bigint()).collect();
+                let r1 = G::msm_unchecked(&base_list(&b, nb, false), &sc);
+                let r2 = G::msm_bigint(&base_list(&b, nb, false), &bi);
+                // both entry points document truncation to the shorter input; they must agree
+                if r1.into_affine() == r2.into_affine() {
+                    r1
+                } else {
+                    r1 + G::generator() // poison the digest: the reference check below then fails
+                }
+            },
+            move |out: &G| {
+                let mut k = G::ScalarField::zero();
+                for (i, s) in spat::<G::ScalarField>("iota_c", ns).iter().take(m).enumerate() {
+                    k += *s * G::ScalarField::from(i as u64 + 1);
+                }
+                same_point(out, &smul(&G::generator(), k.into_bigint().as_ref()))
+            },
+        );
     }
     gs.push(Group { name: format!("msm/{gname}"), cells });
 
